@@ -296,7 +296,20 @@ fn gen_c08(r: &mut Rng, thorough: bool) -> Vec<Op> {
         }
         let i = r.usize(l.areas.len());
         let a = l.areas[i];
-        match r.below(8) {
+        match r.below(9) {
+            8 => {
+                // the rights of an area are taken away and given back (a guard page that is opened again): its
+                // contents are what they were
+                ops.push(Op::Prot { start: a.0, prot: *r.pick(&[0u32, 0, 4, 1]) });
+                if r.chance(1, 2) {
+                    ops.push(Op::ReadBytes { addr: a.0, len: a.1.min(16) });
+                }
+                ops.push(Op::Prot { start: a.0, prot: 3 });
+                ops.push(Op::ReadBytes { addr: a.0, len: a.1.min(64) });
+                if a.1 >= 8 {
+                    ops.push(Op::GuestLoad { size: 8, addr: a.0 + r.below(a.1 - 7) });
+                }
+            }
             6 | 7 => {
                 // a small area strictly inside one of the windows an "anywhere" search probes, then such a
                 // request: the fresh area must read as its initial contents and the small area must keep its own
